@@ -32,6 +32,7 @@ RULE = ('Entry "rebin": Hypothesis generates a filter (2..60 samples, non-negati
         'Non-trivial (rebin): the overlap contains >= 2 SED bins and >= 1 interior filter node; (e2e): >= 2 SED wavelengths '
         'inside a filter. distinct = distinct canonical JSON.')
 RULE += (' ' + 'Also: integer-typed responses, repeated rebin of one filter object, frequencies re-assigned on a used filter (the next rebin must follow the current curve), per-model wavelength grids incl. same length and end points, stored units, SED files plain / .gz / in sub-directories.')
+RULE += (' ' + 'A twin filter built from the same response array is normalised after the first one.')
 ASSUMPTIONS = [
     'each R_i is compared with the exact value at 1e-12 x integral(|filter|) (1e-9 for filters read from text / other units)',
     'convolved fluxes at 1e-10 relative to sum|F R| for float64 data, 1e-5 for float32 cubes',
